@@ -1,23 +1,32 @@
-import HailVerif.Proofs.BatchDBSubmission
+import HailVerif.Proofs.BatchDBJobIds
 import HailVerif.Props.C07
 /-!
 # C08 — Accepted job graphs can always finish
 
-Subject: the BatchDB model (`HailVerif.BatchDB`); `insertJobs` = `_create_jobs` of `front_end.py` (its checks are
-`insertJobsReject`: user / deleted / committed, the per-row outcome of the multi-row `INSERT INTO jobs` — trigger
-`jobs_before_insert`, primary key, foreign key on `job_groups` — and the duplicate key of `job_parents`);
-`commitUpdate` = procedure `commit_batch_update`, whose only check is the NUMBER of staged jobs.
+Subject: the BatchDB model (`HailVerif.BatchDB`); `insertJobs` = `_create_jobs` of `front_end.py`.  Its checks are
+`insertJobsReject`: user / deleted / committed, **the id checks `specIdsOk`** (added by the C08 repair of the code: before
+anything is built or written every spec of the bunch must have its in-update job id in `[1, n_jobs]` of the update, its
+in-update parent ids in `[1, own in-update id)` and its absolute parent ids in `[1, own absolute id)`; 400 otherwise), the
+per-row outcome of the multi-row `INSERT INTO jobs` (trigger `jobs_before_insert`, primary key, foreign key on `job_groups`)
+and the duplicate key of `job_parents`.  `commitUpdate` = procedure `commit_batch_update`, whose only check is the NUMBER of
+staged jobs.
 
-The property as written — "only submissions whose jobs depend on jobs that already exist earlier in the same batch are
-accepted; a missing, later or self dependency, or a job id outside the update's reserved range, is rejected and leaves
-the batch unchanged" — is **false** for the code (hence for the model): no such validation exists.  This file
+The property — "only submissions whose jobs depend on jobs that already exist earlier in the same batch are accepted; a
+missing, later or self dependency, or a job id outside the update's reserved range, is rejected and leaves the batch
+unchanged" — splits into
 
-* states the property at full strength (`AcceptedParentsPrecede`, `IllFormedRejected`),
-* proves its negation on four reachable witnesses (`accepted_parents_precede_fails`, `ill_formed_rejected_fails`),
-* proves the strongest partial statement: when every job bunch of the history satisfies the decidable client-side
-  well-formedness predicate `SpecsWF`, the property holds in every state of the history
-  (`accepted_parents_precede_partial`),
-* shows on the self-parent witness that the accepted job never leaves `Pending`, so the committed batch never completes.
+* the **id half**, which now holds for every history, with no hypothesis on the client:
+  `ill_formed_ids_rejected` (a bunch with a self / later / non-positive parent id or a job id outside the reserved range is
+  answered with an error and changes nothing, in ANY state), `witnesses_rejected` (the four bunches that the unrepaired code
+  accepted), `accepted_ids_ok` / `accepted_parent_ids` (in every reachable state every job row lies in the id range its own
+  update reserved, and every `job_parents` row names a positive, strictly smaller id that lies inside a range reserved by an
+  update of the same batch), `parents_wellFounded` (hence the dependency relation is acyclic: well-founded by id order),
+  `no_jobs_in_empty_update`;
+* the **existence half** — the parent ROW exists — which the server cannot check at insertion time (the bunches of one update
+  are sent concurrently, so a parent of another bunch may not be inserted yet) and which is still violable through the
+  out-of-order-commit family: a child update is committed while the earlier update holding its parent was never inserted
+  (`orphan_parent_accepted`, `accepted_parents_precede_fails`, `ill_formed_rejected_fails`).  The strongest statement for it
+  stays the partial theorem `accepted_parents_precede_partial` under the client-side hypothesis `HistWF`.
 -/
 namespace HailVerif.C08
 open HailVerif.BatchDB HailVerif.BatchDB.Submission
@@ -26,19 +35,72 @@ open HailVerif.C07 (after Reachable)
 /-! ## the property at full strength -/
 
 /-- **Full statement (1).**  In every reachable state every job row `j` satisfies `JobOK`: each `job_parents` row of `j`
-names an existing job of the same batch with a smaller id, and `j.id` lies in `[startJob, startJob + nJobs)` of the
+names an EXISTING job of the same batch with a smaller id, and `j.id` lies in `[startJob, startJob + nJobs)` of the
 update `j` belongs to. -/
 def AcceptedParentsPrecede : Prop := ∀ s, Reachable s → AllJobsOK s
 
 /-- **Full statement (2).**  A job bunch that is not well-formed w.r.t. its update row (`SpecsWF`: in-update id in
-`1..n_jobs`, in-update parents smaller and present, absolute parents before the range and present) is answered with an
+`1..n_jobs`, in-update parents smaller and PRESENT, absolute parents before the range and PRESENT) is answered with an
 error and leaves the database unchanged. -/
 def IllFormedRejected : Prop :=
   ∀ s, Reachable s → ∀ (b upd user : Nat) (specs : List JobSpec) (u : Update), findUpdate s b upd = some u →
     ¬ SpecsWF s b u specs →
     (step s (.insertJobs b upd user specs)).1 = s ∧ ∃ e, (step s (.insertJobs b upd user specs)).2 = .err e
 
-/-! ## witnesses: four accepted and committed bunches that violate it -/
+/-! ## the id half: rejected ⇒ unchanged -/
+
+/-- the id condition `_create_jobs` checks on a bunch addressed to update row `u` (decidable, depends on the specs and on
+`start_job_id` / `n_jobs` of the row only) -/
+def SpecsIdsOK (u : Update) (specs : List JobSpec) : Prop := ∀ sp ∈ specs, specIdsOk u sp = true
+
+instance (u : Update) (specs : List JobSpec) : Decidable (SpecsIdsOK u specs) := by unfold SpecsIdsOK; infer_instance
+
+/-- what the condition says: job id in the reserved range, in-update parents earlier jobs of the update, absolute parents
+earlier jobs of the batch — so a self parent, a later parent, a parent id ≤ 0 or ≥ the job's own id (in particular any id
+that has not been reserved yet) and a job id outside `[1, n_jobs]` all violate it -/
+theorem specsIdsOK_iff (u : Update) (specs : List JobSpec) :
+    SpecsIdsOK u specs ↔ ∀ sp ∈ specs,
+      (1 ≤ sp.relId ∧ sp.relId ≤ u.nJobs) ∧ (∀ p ∈ sp.relParents, 1 ≤ p ∧ p < sp.relId) ∧
+      (∀ p ∈ sp.absParents, 1 ≤ p ∧ p < u.startJob + sp.relId - 1) := by
+  unfold SpecsIdsOK
+  exact forall_congr' fun sp => imp_congr_right fun _ => specIdsOk_iff u sp
+
+/-- **Rejected ⇒ unchanged** (any state, reachable or not): a bunch that violates the id condition is answered with an
+error and nothing is written. -/
+theorem ill_formed_ids_rejected (s : State) (b upd user : Nat) (specs : List JobSpec) (u : Update)
+    (hu : findUpdate s b upd = some u) (hbad : ¬ SpecsIdsOK u specs) :
+    (step s (.insertJobs b upd user specs)).1 = s ∧ ∃ e, (step s (.insertJobs b upd user specs)).2 = .err e := by
+  show (insertJobs s b upd user specs).1 = s ∧ ∃ e, (insertJobs s b upd user specs).2 = .err e
+  have hex : ∃ sp ∈ specs, specIdsOk u sp = false := by
+    by_cases h : ∃ sp ∈ specs, specIdsOk u sp = false
+    · exact h
+    · exfalso
+      apply hbad
+      intro sp hsp
+      cases hv : specIdsOk u sp with
+      | true => rfl
+      | false => exact absurd ⟨sp, hsp, hv⟩ h
+  cases specs with
+  | nil => obtain ⟨sp, hsp, -⟩ := hex; simp at hsp
+  | cons first rest =>
+    cases hbt : findBatch s b with
+    | none =>
+      have e : insertJobs s b upd user (first :: rest) = (s, .err "not-found") := by simp only [insertJobs, hu, hbt]
+      rw [e]; exact ⟨rfl, _, rfl⟩
+    | some bt =>
+      obtain ⟨e, he⟩ := insertJobsReject_badIds s b user u bt first (first :: rest) hex
+      have e' : insertJobs s b upd user (first :: rest) = (s, .err e) := by simp only [insertJobs, hu, hbt, he]
+      rw [e']; exact ⟨rfl, _, rfl⟩
+
+/-- every answer other than `ok` leaves the database unchanged, whatever the reason -/
+theorem rejected_unchanged (s : State) (b upd user : Nat) (specs : List JobSpec) (e : String)
+    (h : (step s (.insertJobs b upd user specs)).2 = .err e) : (step s (.insertJobs b upd user specs)).1 = s := by
+  rcases insertJobs_cases s b upd user specs with ⟨o, eq⟩ | ⟨first, rest, u, bt, hs, hu, hbt, hrej, eq⟩
+  · show (insertJobs s b upd user specs).1 = s; rw [eq]
+  · have : (insertJobs s b upd user specs).2 = .err e := h
+    rw [eq] at this; cases this
+
+/-! ### the four bunches the unrepaired code accepted are rejected -/
 
 /-- job 1 names itself as in-update parent -/
 def wSelf : List Op :=
@@ -50,7 +112,7 @@ def wLater : List Op :=
   [.createBatch 1 1 100, .createUpdate 1 200 2 0 1,
    .insertJobs 1 1 1 [⟨1, [], [2], some 0, 0, false, 1000, 0⟩, ⟨2, [], [], some 0, 0, false, 1000, 0⟩], .commitUpdate 1 1]
 
-/-- job 1 names the absolute parent 7, which does not exist -/
+/-- job 1 names the absolute parent 7: an id that was never reserved (and is not smaller than the job's own id) -/
 def wMissing : List Op :=
   [.createBatch 1 1 100, .createUpdate 1 200 1 0 1,
    .insertJobs 1 1 1 [⟨1, [7], [], some 0, 0, false, 1000, 0⟩], .commitUpdate 1 1]
@@ -60,48 +122,109 @@ def wRange : List Op :=
   [.createBatch 1 1 100, .createUpdate 1 200 1 0 1,
    .insertJobs 1 1 1 [⟨5, [], [], some 0, 0, false, 1000, 0⟩], .commitUpdate 1 1]
 
-/-- every witness bunch is accepted (`ok 0`) and its update commits (`rc 0`): the count check is the only check -/
-theorem witnesses_accepted :
-    (step (after init (wSelf.take 2)) wSelf[2]).2 = .ok 0 ∧ (step (after init (wSelf.take 3)) wSelf[3]).2 = .ok 0 ∧
-    (step (after init (wLater.take 2)) wLater[2]).2 = .ok 0 ∧ (step (after init (wLater.take 3)) wLater[3]).2 = .ok 0 ∧
-    (step (after init (wMissing.take 2)) wMissing[2]).2 = .ok 0 ∧ (step (after init (wMissing.take 3)) wMissing[3]).2 = .ok 0 ∧
-    (step (after init (wRange.take 2)) wRange[2]).2 = .ok 0 ∧ (step (after init (wRange.take 3)) wRange[3]).2 = .ok 0 := by
+/-- every one of them is answered with the id error, and the commit that follows is refused (rc 1: wrong number of jobs) -/
+theorem witnesses_rejected :
+    (step (after init (wSelf.take 2)) wSelf[2]).2 = .err "bad-ids" ∧ (step (after init (wSelf.take 3)) wSelf[3]).2 = .ok 1 ∧
+    (step (after init (wLater.take 2)) wLater[2]).2 = .err "bad-ids" ∧ (step (after init (wLater.take 3)) wLater[3]).2 = .ok 1 ∧
+    (step (after init (wMissing.take 2)) wMissing[2]).2 = .err "bad-ids" ∧
+      (step (after init (wMissing.take 3)) wMissing[3]).2 = .ok 1 ∧
+    (step (after init (wRange.take 2)) wRange[2]).2 = .err "bad-ids" ∧ (step (after init (wRange.take 3)) wRange[3]).2 = .ok 1 := by
   decide
 
-theorem self_parent_accepted : ¬ AllJobsOK (after init wSelf) := by decide
-theorem later_parent_accepted : ¬ AllJobsOK (after init wLater) := by decide
-theorem missing_parent_accepted : ¬ AllJobsOK (after init wMissing) := by decide
-theorem out_of_range_id_accepted : ¬ AllJobsOK (after init wRange) := by decide
+/-- … and nothing of them reaches the tables: no job row, no `job_parents` row, no staging / counter entry, the batch still
+has 0 jobs -/
+theorem witnesses_leave_nothing :
+    ∀ w ∈ [wSelf, wLater, wMissing, wRange],
+      (after init w).jobs = [] ∧ (after init w).parents = [] ∧ (after init w).ctr = [] ∧
+      ((after init w).batches.map fun b => b.nJobs) = [0] ∧ ((after init w).updates.map fun u => u.committed) = [false] := by
+  decide
 
-/-- the rows the witnesses leave behind, for the record: (job id, state, n_pending_parents) and `job_parents` -/
-example : ((after init wSelf).jobs.map fun j => (j.id, j.state, j.npp)) = [(1, .Pending, 1)] ∧
-    (after init wSelf).parents = [(1, 1, 1)] ∧
-    ((after init wLater).jobs.map fun j => (j.id, j.state, j.npp)) = [(1, .Pending, 1), (2, .Ready, 0)] ∧
-    (after init wLater).parents = [(1, 1, 2)] ∧
-    ((after init wMissing).jobs.map fun j => (j.id, j.state, j.npp)) = [(1, .Pending, 1)] ∧
-    (after init wMissing).parents = [(1, 1, 7)] ∧
-    ((after init wRange).jobs.map fun j => (j.id, j.state, j.npp)) = [(5, .Ready, 0)] := by decide
+/-! ## the id half: accepted ⇒ ids in range, parents strictly earlier -/
 
-/-- **The property fails**: a self parent is accepted and committed (so are a later parent, a missing parent and an
-out-of-range job id: the three theorems above). -/
+/-- **Accepted ⇒ well-formed ids**, for every history: every `job_parents` row `(batch, job, parent)` has
+`1 ≤ parent < job`, and every job row lies in the job-id range reserved by its own update. -/
+theorem accepted_ids_ok {s : State} (h : Reachable s) : ParentsDecrease s ∧ JobsInRange s := by
+  obtain ⟨ops, rfl⟩ := h
+  exact (jobIds_run ops).2
+
+/-- the same per job row, with the reserved range of the PARENT id: each parent id of an accepted job is positive, smaller
+than the job's id, and lies inside the range reserved by some update of the same batch (reserved ranges are contiguous from
+1 and in update order: C09) — it is the id of an earlier job of the batch, inserted or not. -/
+theorem accepted_parent_ids {s : State} (h : Reachable s) (j : Job) (hj : j ∈ s.jobs) (p : Nat)
+    (hp : (j.batch, j.id, p) ∈ s.parents) :
+    1 ≤ p ∧ p < j.id ∧ ∃ w ∈ s.updates, w.batch = j.batch ∧ w.startJob ≤ p ∧ p < w.startJob + w.nJobs := by
+  obtain ⟨ops, rfl⟩ := h
+  obtain ⟨hr, hd, hin⟩ := jobIds_run ops
+  obtain ⟨h1, h2⟩ := hd _ hp
+  obtain ⟨u, hu, -, hu2⟩ := hin j hj
+  obtain ⟨hum, hub, -⟩ := mem_of_findUpdate (Option.mem_def.mp hu)
+  obtain ⟨w, hw, hwb, hw1, hw2⟩ := covered_of_lt hr hum h1 (show p < u.startJob + u.nJobs by
+    have : p < j.id := h2
+    omega)
+  exact ⟨h1, h2, w, hw, by rw [hwb, hub], hw1, hw2⟩
+
+/-- **The dependency relation is acyclic**: in every reachable state "p is a parent of j" (within one batch) is
+well-founded — following `job_parents` rows strictly decreases the job id, so there is no cycle and no infinite descent,
+whatever the clients sent. -/
+theorem parents_wellFounded {s : State} (h : Reachable s) (b : Nat) :
+    WellFounded (fun p j : Nat => (b, j, p) ∈ s.parents) :=
+  Subrelation.wf (r := fun p j : Nat => p < j) (fun hp => ((accepted_ids_ok h).1 _ hp).2) Nat.lt_wfRel.wf
+
+/-- in particular no job is its own ancestor through one step … -/
+theorem no_self_parent {s : State} (h : Reachable s) (b j : Nat) : (b, j, j) ∉ s.parents :=
+  fun hp => Nat.lt_irrefl j ((accepted_ids_ok h).1 _ hp).2
+
+/-- an update that reserved no job ids has no job rows (the hypothesis `HistCommitOK` of C06 is therefore met by every
+history) -/
+theorem no_jobs_in_empty_update {s : State} (h : Reachable s) (b upd : Nat) (u : Update) (hu : findUpdate s b upd = some u)
+    (h0 : u.nJobs = 0) : ∀ j ∈ s.jobs, j.batch = b → j.update ≠ upd := by
+  intro j hj hb hupd
+  obtain ⟨u', hu', h1, h2⟩ := (accepted_ids_ok h).2 j hj
+  rw [hb, hupd, Option.mem_def, hu] at hu'
+  cases hu'
+  omega
+
+/-! ## the existence half: still violable through the out-of-order commit -/
+
+/-- update 2 (one job, absolute parent 1 = the job id reserved by update 1) is sent and committed while the bunch of
+update 1 was never inserted: the ids pass every check (1 < 2, inside the reserved ranges), the parent row does not exist -/
+def wOrphan : List Op :=
+  [.createBatch 1 1 100, .createUpdate 1 200 1 0 1, .createUpdate 1 201 1 0 1,
+   .insertJobs 1 2 1 [⟨1, [1], [], some 0, 0, false, 1000, 0⟩], .commitUpdate 1 2]
+
+/-- the bunch is accepted (`ok 0`), the update commits (`rc 0`): `commit_batch_update` recomputes `n_pending_parents` from
+the parent rows that exist, finds none and makes the child Ready -/
+theorem orphan_accepted :
+    (step (after init (wOrphan.take 3)) wOrphan[3]).2 = .ok 0 ∧ (step (after init (wOrphan.take 4)) wOrphan[4]).2 = .ok 0 ∧
+    ((after init wOrphan).jobs.map fun j => (j.id, j.state, j.npp)) = [(2, .Ready, 0)] ∧
+    (after init wOrphan).parents = [(1, 2, 1)] := by decide
+
+theorem orphan_parent_accepted : ¬ AllJobsOK (after init wOrphan) := by decide
+
+/-- … although its ids are exactly what the id half guarantees -/
+example : ParentsDecrease (after init wOrphan) ∧ JobsInRange (after init wOrphan) := by decide
+
+/-- **The property at full strength still fails**: the parent of a committed job need not exist. -/
 theorem accepted_parents_precede_fails : ¬ AcceptedParentsPrecede :=
-  fun h => self_parent_accepted (h _ ⟨wSelf, rfl⟩)
+  fun h => orphan_parent_accepted (h _ ⟨wOrphan, rfl⟩)
 
-/-- **The rejection half fails too**: the ill-formed self-parent bunch is answered `ok 0` and writes its rows. -/
+/-- **So does the rejection half at full strength** (`SpecsWF` includes the presence of the parents): the bunch of update 2
+is not `SpecsWF` — its parent is absent — and is answered `ok 0`. -/
 theorem ill_formed_rejected_fails : ¬ IllFormedRejected := by
   intro h
-  have hr : Reachable (after init (wSelf.take 2)) := ⟨_, rfl⟩
-  obtain ⟨-, e, he⟩ := h _ hr 1 1 1 [⟨1, [], [1], some 0, 0, false, 1000, 0⟩] ⟨1, 1, 200, 1, 1, 1, 0, false⟩
+  have hr : Reachable (after init (wOrphan.take 3)) := ⟨_, rfl⟩
+  obtain ⟨-, e, he⟩ := h _ hr 1 2 1 [⟨1, [1], [], some 0, 0, false, 1000, 0⟩] ⟨1, 2, 201, 2, 1, 1, 0, false⟩
     (by decide) (by decide)
-  have : (step (after init (wSelf.take 2)) (.insertJobs 1 1 1 [⟨1, [], [1], some 0, 0, false, 1000, 0⟩])).2 = .ok 0 := by
+  have : (step (after init (wOrphan.take 3)) (.insertJobs 1 2 1 [⟨1, [1], [], some 0, 0, false, 1000, 0⟩])).2 = .ok 0 := by
     decide
   rw [this] at he; cases he
 
-/-! ## the partial theorem -/
+/-! ## the partial theorem for the existence half -/
 
 /-- **Partial.**  If every request of the history is well-formed in the state it is applied to (`HistWF`: for a job
-bunch, `SpecsWF` w.r.t. the update row it addresses — what `aioclient` produces when bunches are sent in order), then
-in the reached state every job's parents exist, have smaller ids, and its id lies in its update's reserved range. -/
+bunch, `SpecsWF` w.r.t. the update row it addresses — what `aioclient` produces when updates are submitted one after the
+other), then in the reached state every job's parents EXIST, have smaller ids, and its id lies in its update's reserved
+range. -/
 theorem accepted_parents_precede_partial (ops : List Op) (hwf : HistWF init ops) : AllJobsOK (after init ops) :=
   (c08_run ops init hwf ⟨by intro j hj; simp [init] at hj, by intro e he; simp [init] at he⟩).1
 
@@ -111,9 +234,8 @@ theorem accepted_parents_precede_step (s : State) (op : Op) (hwf : OpWF s op) (h
     AllJobsOK (step s op).1 ∧ ParentsOwned (step s op).1 :=
   c08_step s op hwf h
 
-/-- in particular the parents graph of a well-formed history is acyclic and finite-descending: following `job_parents`
-rows strictly decreases the job id -/
-theorem parents_decrease (ops : List Op) (hwf : HistWF init ops) (j : Job) (hj : j ∈ (after init ops).jobs)
+/-- under `HistWF` the parent rows exist as well -/
+theorem parents_exist (ops : List Op) (hwf : HistWF init ops) (j : Job) (hj : j ∈ (after init ops).jobs)
     (p : Nat) (hp : (j.batch, j.id, p) ∈ (after init ops).parents) :
     p < j.id ∧ ∃ pj, findJob (after init ops) j.batch p = some pj :=
   let h := (accepted_parents_precede_partial ops hwf j hj).1 _ hp rfl rfl
@@ -130,26 +252,8 @@ def good : List Op :=
 
 example : HistWF init good := by decide
 example : (after init good).parents = [(1, 2, 1), (1, 3, 2)] := by decide
-/-- … and the witnesses are exactly not -/
-example : ¬ HistWF init wSelf ∧ ¬ HistWF init wLater ∧ ¬ HistWF init wMissing ∧ ¬ HistWF init wRange := by decide
-
-/-! ## the accepted self-parent job can never run: the committed batch never completes -/
-
-/-- After the commit the self-parent job is `Pending` with one pending parent (itself); the batch is `running` with
-`n_jobs = 1`.  Whatever the driver then tries — a fresh active instance, scheduling the job, marking it started,
-reporting it complete, cancelling the batch, reporting it complete again (the canceller's call) — the job stays
-`Pending`, nothing is counted complete, and the batch stays `running`. -/
-def poke : List Op :=
-  [.newInstance 7 4000 true, .activate 7, .schedule 1 1 1 7, .started 1 1 1 7 10 0,
-   .complete 1 1 (some 1) (some 7) .Success (some 10) (some 20) "completed" 0,
-   .cancelGroup 1 0, .complete 1 1 none none .Cancelled none none "cancelled" 0, .cleanupStaging, .compact]
-
-theorem never_ready_witness :
-    ∀ n ≤ poke.length,
-      ((after init (wSelf ++ poke.take n)).jobs.map fun j => (j.id, j.state)) = [(1, .Pending)] ∧
-      ((after init (wSelf ++ poke.take n)).batches.map fun b => (b.state, b.nJobs)) = [(.running, 1)] ∧
-      ((after init (wSelf ++ poke.take n)).groups.map fun g => (g.id, g.state, g.nJobs, g.nCompleted)) =
-        [(0, .running, 1, 0)] := by
-  decide
+/-- … and the orphan witness is exactly not (nor are the four rejected bunches) -/
+example : ¬ HistWF init wOrphan ∧ ¬ HistWF init wSelf ∧ ¬ HistWF init wLater ∧ ¬ HistWF init wMissing ∧
+    ¬ HistWF init wRange := by decide
 
 end HailVerif.C08
